@@ -615,6 +615,10 @@ impl<'a> LiveEvents<'a> {
             }
         }
 
+        // The stream may have ended because reading it failed: that is the error to report,
+        // not the end of input it looks like.
+        self.io_error()?;
+
         // True EOF. If we have not produced any content in the current document,
         // synthesize a single null scalar event to represent an empty document.
         if !self.produced_any_in_doc {
